@@ -44,6 +44,7 @@ type c14Case struct {
 	End         string    `json:"end"`
 	CloseAfter  int       `json:"close_after_reads"`
 	ReuseBuffer bool      `json:"application_reuses_its_read_buffer"`
+	EarlyTrailer bool     `json:"handler_sets_prefixed_trailer_before_headers"`
 	CloseAtEnd  bool      `json:"close_after_end_of_body"` // the application closes the body after it has seen EOF / an error (defer Body.Close())
 	CloseFails  bool      `json:"inner_close_fails"`
 	Named       bool      `json:"has_test_name"`
@@ -325,6 +326,7 @@ func c14Run(t *testing.T, tape *simrt.Tape, o simwork.Opts) *simwork.Result {
 	}
 	cs.End = []string{"eof", "eof-with-data", "error", "stall", "error-with-data"}[endKind]
 	cs.ReuseBuffer = tape.Bool(1, 2, "reuse-buffer")
+	cs.EarlyTrailer = tape.Bool(1, 2, "early-trailer")
 	if cs.CloseAfter < 0 && tape.Bool(1, 2, "close-at-end") {
 		cs.CloseAtEnd = true
 		cs.CloseFails = tape.Bool(1, 3, "close-fails")
@@ -474,6 +476,11 @@ func c14Run(t *testing.T, tape *simrt.Tape, o simwork.Opts) *simwork.Result {
 				w.Header()[k] = v
 			}
 			w.Header().Set("Trailer", "X-Declared")
+			if cs.EarlyTrailer {
+				// a trailer announced with the TrailerPrefix mechanism before the
+				// headers are written (legal for net/http handlers)
+				w.Header().Set(http.TrailerPrefix+"X-Early", "early-value")
+			}
 			for k, v := range w.Header() {
 				wantHdr[k] = append([]string(nil), v...)
 			}
